@@ -622,14 +622,23 @@ func intBindsGuard(info *types.Info, di *defIndex, e pathElem) string {
 
 // ruleAccessor — A2, type-directed and label-free: T(v.Acc()) needs category(T) ==
 // category(Acc); v.SetAcc(e) needs category(typeof e before widening) == category(Acc).
-func ruleAccessor(c *Ctx, short string, rule string) {
+func ruleAccessor(c *Ctx, short string, rule string) { ruleAccessorFiles(c, short, nil, rule) }
+
+func ruleAccessorFiles(c *Ctx, short string, files []string, rule string) {
 	pk := c.P.Pkg(short)
 	if pk == nil {
 		c.Fatal("package %s not loaded", short)
 		return
 	}
 	info := pk.TypesInfo
+	fileSet := map[string]bool{}
+	for _, f := range files {
+		fileSet[f] = true
+	}
 	for _, f := range pk.Syntax {
+		if len(files) > 0 && !fileSet[baseName(c.P.Fset, f)] {
+			continue
+		}
 		var stack []ast.Node
 		var encl []*ast.FuncDecl
 		ast.Inspect(f, func(n ast.Node) bool {
